@@ -572,6 +572,13 @@ func (c *bufioConn) CopyRelayRemainder(dst io.Writer, buf []byte, record func(in
 }
 
 func (c *bufioConn) Read(b []byte) (int, error) {
+	// Once the buffered bytes are drained, read the connection itself. The
+	// reader may still hold the error of the DNS probe's expired read
+	// deadline (Peek leaves it behind when it gives up with ErrBufferFull) and
+	// would hand it to the relay's first read.
+	if c.reader == nil || c.reader.Buffered() == 0 {
+		return c.Conn.Read(b)
+	}
 	return c.reader.Read(b)
 }
 
